@@ -38,8 +38,8 @@ func init() {
 	regCfg(&calCfg{name: "eth", ct: ethiopian.New(), setup: nop, short: 365, rule: ruleEth})
 	regCfg(&calCfg{name: "greg", ct: gregorian.New(), setup: nop, short: 365, rule: ruleGreg})
 	regCfg(&calCfg{name: "gprol", ct: gregorian_proleptic.New(), setup: nop, skipYear0: true, short: 365, rule: ruleGprol})
-	regCfg(&calCfg{name: "hij-a", ct: hijri.New(), setup: func() { hijri.SetUseMonthData(false) }, short: 354, rule: ruleHijA})
-	regCfg(&calCfg{name: "hij-t", ct: hijri.New(), setup: func() { hijri.SetUseMonthData(true) }, short: 354, rule: ruleHijA})
+	regCfg(&calCfg{name: "hij-a", ct: hijri.New(), setup: func() { setMonthData(false) }, short: 354, rule: ruleHijA})
+	regCfg(&calCfg{name: "hij-t", ct: hijri.New(), setup: func() { setMonthData(true) }, short: 354, rule: ruleHijA})
 	regCfg(&calCfg{name: "ind", ct: indian_national.New(), setup: nop, short: 365, rule: ruleInd})
 	regCfg(&calCfg{name: "jal33", ct: jalali.New(), setup: func() { jalali.SetAlgorithm2820(false) }, short: 365, rule: ruleJal33})
 	regCfg(&calCfg{name: "jal2820", ct: jalali.New(), setup: func() { jalali.SetAlgorithm2820(true) }, short: 365, rule: ruleJal2820})
@@ -323,7 +323,7 @@ var hijTableYears = [2]int{1424, 1446}
 // hijri month-table window as the rule (C03 "inside the validity window of the
 // embedded Hijri month table the table's month lengths are the rule")
 func hijTableDate(jd int) (y, m, d int, ok bool) {
-	loaded, _, startDate, startJd, endJd, rows := hijri.VerifMonthData()
+	loaded, startDate, startJd, endJd, rows := hijriTable()
 	if !loaded || jd < startJd || jd > endJd {
 		return 0, 0, 0, false
 	}
